@@ -5,6 +5,7 @@ import (
 	"encoding/json"
 	"fmt"
 	"math"
+	"sort"
 	"strings"
 	"time"
 
@@ -215,6 +216,8 @@ type lcImpl struct {
 	ctx    context.Context
 	val    int
 	closed []chan struct{}
+	// every document id this namespace has seen (digest)
+	seenDocIDs []string
 }
 
 const lcUnknownID = "000000000000000000000001"
@@ -338,7 +341,9 @@ func (im *lcImpl) do(e lcEvent) lcResult {
 			}
 			doc = im.newDoc(c, d).doc
 		}
-		if e.K == "pp" && doc.Status() != document.StatusRemoved {
+		// a sync and a detach carry the client's latest local edit (client.Detach
+		// sends what is still unsent)
+		if (e.K == "pp" || e.K == "det") && doc.Status() != document.StatusRemoved {
 			im.val++
 			v := im.val
 			_ = doc.Update(func(r *yjson.Object, p *document.Presence) error { r.SetInteger("k", v); return nil })
@@ -386,6 +391,76 @@ func (im *lcImpl) do(e lcEvent) lcResult {
 	return lcResult{}
 }
 
+// digest renders what the lifecycle rules are about, for this namespace's
+// project: every document (key, head, epoch, removed or not), the number of
+// stored changes per document, every client (status and per-document status /
+// checkpoint) and every version-vector row. Timestamps are left out.
+func (im *lcImpl) digest() string {
+	var sb strings.Builder
+	db := im.r.W.MemDB
+	// the documents of this namespace: every id a client was ever given, plus
+	// the live document of each key
+	ids := map[string]bool{}
+	for c := range im.docs {
+		for d := range im.docs[c] {
+			if rd := im.docs[c][d]; rd != nil && rd.docID != "" {
+				ids[rd.docID] = true
+			}
+		}
+	}
+	for _, id := range im.seenDocIDs {
+		ids[id] = true
+	}
+	for d := range im.dkey {
+		if di, err := im.r.W.BE.DB.FindDocInfoByKey(im.ctx, im.proj.ID, im.dkey[d]); err == nil && di != nil {
+			ids[di.ID.String()] = true
+		}
+	}
+	var sorted []string
+	for id := range ids {
+		sorted = append(sorted, id)
+	}
+	sort.Strings(sorted)
+	im.seenDocIDs = sorted
+	for _, id := range sorted {
+		d, err := im.r.W.BE.DB.FindDocInfoByRefKey(im.ctx, types.DocRefKey{ProjectID: im.proj.ID, DocID: types.ID(id)})
+		if err != nil {
+			fmt.Fprintf(&sb, "doc %s: %v\n", id, err)
+			continue
+		}
+		fmt.Fprintf(&sb, "doc %s key=%s head=%d epoch=%d removed=%v changes=%d\n", d.ID, d.Key, d.ServerSeq, d.Epoch, !d.RemovedAt.IsZero(), im.logLenOf(id))
+	}
+	for _, cid := range im.cid {
+		if cid == "" {
+			continue
+		}
+		c, err := im.r.W.BE.DB.FindClientInfoByRefKey(im.ctx, types.ClientRefKey{ProjectID: im.proj.ID, ClientID: types.ID(cid)})
+		if err != nil {
+			fmt.Fprintf(&sb, "client %s: %v\n", cid, err)
+			continue
+		}
+		var ids []string
+		for id := range c.Documents {
+			ids = append(ids, id.String())
+		}
+		sort.Strings(ids)
+		fmt.Fprintf(&sb, "client %s status=%s", c.ID, c.Status)
+		for _, id := range ids {
+			cd := c.Documents[types.ID(id)]
+			fmt.Fprintf(&sb, " [%s %s %d/%d]", id, cd.Status, cd.ServerSeq, cd.ClientSeq)
+		}
+		sb.WriteByte('\n')
+	}
+	for _, raw := range db.DumpTableForVerif("versionvectors") {
+		v := raw.(*database.VersionVectorInfo)
+		if v.ProjectID != im.proj.ID {
+			continue
+		}
+		fmt.Fprintf(&sb, "vv %s %s %s\n", v.DocID, v.ClientID, v.VersionVector.Marshal())
+	}
+	return sb.String()
+}
+
 // logLen returns the number of stored changes of client c's document instance.
 func (im *lcImpl) logLenOf(docID string) int {
 	infos, err := im.r.W.BE.DB.FindChangeInfosBetweenServerSeqs(im.ctx, types.DocRefKey{ProjectID: im.proj.ID, DocID: types.ID(docID)}, 1, math.MaxInt64)
@@ -417,12 +492,22 @@ func lcReplay(r *hist.Runner, seq []lcEvent) (*lcModel, string) {
 		}
 		wasRemovedGen := m.Att[e.C][e.D] == 'a' && (m.Gen[e.C][e.D] != m.Cur[e.D] || !m.Has[e.D])
 		accept, removedFlag := m.step(e)
+		var digestBefore string
+		if !accept {
+			digestBefore = im.digest()
+		}
 		got := im.do(e)
 		where := fmt.Sprintf("step %d %s", i, e)
 		if got.ok != accept {
 			return m, fmt.Sprintf("%s: documented state machine %s, server %s (%s)", where, acc(accept), acc(got.ok), got.code)
 		}
 		if !accept {
+			// a refused request takes no effect: documents (removal, head, epoch),
+			// stored changes, client and attachment states and version-vector rows
+			// of this namespace are what they were
+			if after := im.digest(); after != digestBefore {
+				return m, fmt.Sprintf("%s: the server refused the request (%s) but its stored state changed\n%s", where, got.code, firstDiff(digestBefore, after))
+			}
 			continue
 		}
 		if e.K != "act" && e.K != "deact" && got.removed != removedFlag {
